@@ -96,5 +96,33 @@ PROPS.update({
     },
 })
 
+PROPS.update({
+    "C01": {
+        "runs": [("C01", "std", "normal")],
+        "rule": "tag 10: from_bytes for 4 factory implementations (raw, structured, two harness-defined third-party types) on all 256 status bytes x boundary data bytes, every type x all values of one data byte, seeded random triples (thorough: all 256x128x128 triples); tag 11: StructuredShortMessage values built through the public enum (all variants; quick: full sweep of one field with the others on boundaries, all 120 quarter frames, all 16384 song positions; thorough: every value); tag 12: all 128 quarter-frame bytes; tag 13: all 256 type codes",
+        "exhaustive": {"thorough": True},
+        "assumptions": ["data bytes are valid U7 values"],
+    },
+    "C02": {
+        "runs": [("C02", "std", "normal")],
+        "rule": "tag 20: every classification / accessor method on raw, structured and third-party implementors for all 128 valid status bytes x boundary data bytes (incl. 119,120,121,127), every type x all values of one data byte, seeded random triples (thorough: all 2^21 triples x 3 implementors); tag 13: all 256 values of the ShortMessageType conversion",
+        "exhaustive": {"thorough": True},
+        "assumptions": [],
+    },
+    "C03": {
+        "runs": [("C03", "std", "normal")],
+        "rule": "tag 30: all ordered pairs of the 4 implementors x {to_other, from_other} plus to_structured; all methods of the trait on the original and on the converted message; all valid status bytes x boundary data bytes + seeded random triples (thorough: every valid triple, cycling through the combinations). The decider compares the implementations with each other",
+        "exhaustive": {},
+        "assumptions": [],
+    },
+    "C06": {
+        "runs": [("C06", "std", "normal")],
+        "rule": "tag 60: the 19 named constructors for RawShortMessage and StructuredShortMessage (quick: full sweep per argument with the others on boundaries; thorough: every argument tuple), all 16384 14-bit values x channels (quick: stride 11), all 128 quarter-frame bytes; tag 61: 23 types x 3 generic constructors x channels x boundary data; tag 62: test_util shorthands with in- and out-of-range primitives",
+        "exhaustive": {"thorough": True},
+        "assumptions": [],
+    },
+})
+
 HOOK_COMMITS = ["8ffd056"]
+FIX_COMMITS = ["f23ae2b"]
 NOT_YET = {}
